@@ -173,6 +173,7 @@ pub fn run_fault_case(case: &FaultCase, dir: &Path) -> CaseResult {
     let fault_rec = trace.iter().position(|t| t.op == OP_FAULT);
     let hit_path = fault_rec.map(|i| trace[i].p1.clone()).unwrap_or_default();
     let hit_class = ["wal", "sstables", "manifest", "vlog"].iter().find(|c| hit_path.contains(&format!("{c}/"))).copied().unwrap_or("other");
+    let wal_faulted = trace.iter().any(|t| t.op == OP_FAULT && t.p1.contains("wal/"));
     let after_manifest_rename = fault_rec.map(|i| i > 0 && trace[i - 1].op == OP_RENAME && trace[i - 1].p2.contains("manifest/") && op == "fsync").unwrap_or(false);
     let aux0 = json!({"fault": spec, "class": class, "op": op, "fault_hit_file_class": hit_class, "fault_hit_the_fsync_after_the_manifest_rename": after_manifest_rename});
     if let Some((c, m)) = &run.child_failure {
@@ -461,7 +462,7 @@ pub fn run_fault_case(case: &FaultCase, dir: &Path) -> CaseResult {
     drop(rt);
     if failure.is_none() && replayed_failed > 0 {
         stats.add("n_images_with_replayed_failed_commit", replayed_failed);
-        failure = Some(fail("failed-commit-replayed-after-restart", replay_example, json!({"fault": spec, "class": class, "op": op, "images": replayed_failed, "fault_hit_file_class": hit_class})));
+        failure = Some(fail("failed-commit-replayed-after-restart", replay_example, json!({"fault": spec, "class": class, "op": op, "images": replayed_failed, "fault_hit_file_class": hit_class, "a_fault_hit_the_wal": wal_faulted})));
     }
     let nontrivial = stats.has("has_failed_commit") && stats.has("acknowledged_commit_after_a_failed_one") && stats.has("power_loss_images");
     if n_failed > 0 && !ack_after_failure {
